@@ -276,3 +276,41 @@ def write_evidence(chk, tier, seed, st, n_validated, wall, violations, known_hit
 
 def main(chk):
     sys.exit(run_check(chk))
+
+
+def run_pinned(fn, cfg=None):
+    """Execute fn(run) once under the engine with all inputs pinned to constants; requires exactly one
+    path.  Used by translator validation (shim-loaded code on constant symbolic terms vs native code)."""
+    out = []
+    ex = engine.Explorer(lambda run: out.append(fn(run)), cfg or engine.Config())
+    st = ex.explore()
+    assert st.paths == 1 and len(out) == 1, "pinned run must follow exactly one path (got %d)" % st.paths
+    return out[0]
+
+
+def concrete(x):
+    """Python value of a constant symbolic value (after a pinned run)."""
+    import z3
+    from fractions import Fraction
+    from .values import SymReal, SymInt, SymQ, SymBool
+    if isinstance(x, (list, tuple)):
+        return type(x)(concrete(e) for e in x)
+    if isinstance(x, SymReal):
+        v = z3.simplify(x.t)
+        assert z3.is_rational_value(v), "not constant: %s" % v
+        return Fraction(v.numerator_as_long(), v.denominator_as_long())
+    if isinstance(x, SymInt):
+        v = z3.simplify(x.t)
+        assert z3.is_int_value(v), "not constant: %s" % v
+        return v.as_long()
+    if isinstance(x, SymQ):
+        v = z3.simplify(x.num)
+        assert z3.is_int_value(v), "not constant: %s" % v
+        return Fraction(v.as_long(), x.den)
+    if isinstance(x, SymBool):
+        v = z3.simplify(x.t)
+        assert z3.is_true(v) or z3.is_false(v)
+        return z3.is_true(v)
+    if isinstance(x, float):
+        return Fraction(x)
+    return x
